@@ -1,6 +1,9 @@
 //! Node ID.
 
 #[cfg(not(feature = "std"))]
+use alloc::vec::Vec;
+
+#[cfg(not(feature = "std"))]
 use core::{fmt, num::NonZeroUsize};
 
 #[cfg(feature = "deser")]
@@ -1202,17 +1205,17 @@ impl NodeId {
     pub fn remove_subtree<T>(self, arena: &mut Arena<T>) {
         self.detach(arena);
 
-        // use a preorder traversal to remove node.
-        let mut cursor = Some(self);
-        while let Some(id) = cursor {
+        // Remove the nodes in preorder. The nodes are collected first because
+        // a removed node must not keep any link to its former relatives.
+        let subtree: Vec<NodeId> = self.descendants(arena).collect();
+        for id in subtree {
             arena.free_node(id);
-            let node = &arena[id];
-            cursor = node.first_child.or(node.next_sibling).or_else(|| {
-                id.ancestors(arena) // traverse ancestors upwards
-                    .skip(1) // skip the starting node itself
-                    .find(|n| arena[*n].next_sibling.is_some()) // first ancestor with a sibling
-                    .and_then(|n| arena[n].next_sibling) // the sibling is the new cursor
-            });
+            let node = &mut arena[id];
+            node.parent = None;
+            node.previous_sibling = None;
+            node.next_sibling = None;
+            node.first_child = None;
+            node.last_child = None;
         }
     }
 
